@@ -392,10 +392,12 @@ class Solver:
         out = self._read_answer()
         return out
 
-    def check(self, asserts, want_model=False, values=()):
+    def check(self, asserts, want_model=False, values=(), local_decls=()):
         """returns (verdict, model_lines) with verdict in sat / unsat / unknown / error"""
         t0 = time.time()
         self.send("(push 1)")
+        for c in local_decls:
+            self.send(c)
         for a in asserts:
             self.send("(assert %s)" % a)
         self.send("(check-sat)")
